@@ -1,5 +1,5 @@
 HOOK_COMMITS = ["fd134dd", "64b0d90"]
-FIX_COMMITS = ["8d2201b", "df04100"]
+FIX_COMMITS = ["8d2201b", "df04100", "1af35a7", "d4f6549", "fcb976d", "69fd084"]
 ENGINES = [
  {"name": "E-lib", "path": "/verif/harness", "serves_properties": ["C12","C17","C22","C23","C24","C25","C26","C27"],
   "kind_free_text": "Rust (toolchain 1.88) binary capyv-lib linking /repo's crates: bounded exhaustive enumerators + proptest 1.11 (TestRunner, fixed ChaCha seed from VERIF_SEED, no persistence), reference models / laws as oracles"},
@@ -10,6 +10,15 @@ NOTES = "All checks: ./check <id> --tier quick|thorough; VERIF_SEED is the only 
 NOT_YET = {}
 ELIB_NOTE = "trusts rustc, proptest, the small reference model in the harness source; explores the stated bounded domain exhaustively and beyond it by seeded random generation; absence of violations is established only on what was explored"
 CHECKS = {
+ "C12": {"engine": "E-lib", "technique": "exhaustive pair enumeration + proptest over hir::common::Ty against algebraic laws L1-L5",
+         "level": "all ordered pairs of the ~900 types of constructor depth <= 1 (exhaustive, ~8e5 pairs) and 200k/5M random pairs at depth 2 are checked against the five laws of the statement (reflexivity of can_fit_into, fit => cast, weak-replaceable => fit, max accepts both operands, max symmetric); panics inside the relation functions are violations",
+         "note": ELIB_NOTE + "; uids are derived from the declaration so that one uid names one type; Unknown/NotYetResolved/AlwaysJumps/File are outside the universe"},
+ "C17": {"engine": "E-lib", "technique": "exhaustive type enumeration (depth <= 2) + random depth 3 through the layout hook; oracle: documented layout rules recomputed independently + host gcc offsetof/_Alignof/sizeof for scalar structs",
+         "level": "~14k/25k types at pointer width 64 and again at 32 (child process): alignment power of two <= 8, struct offsets ordered/aligned/non-overlapping/in size, array = len x stride, distinct/variant = underlying, ?pointer pointer-sized, tag right after the largest payload; 819/7380 scalar structs compared with gcc",
+         "note": ELIB_NOTE + "; requires hook H1 (codegen::verif); gcc 12 is the C reference"},
+ "C27": {"engine": "E-lib", "technique": "injectivity search over entity descriptors through the mangling hook (all pairs of a pool + proptest one-component variations)",
+         "level": "all unordered pairs of a ~350-descriptor pool (exhaustive) plus 100k/1M random pairs, half of them differing in exactly one component; any two different descriptors must get different symbols and none may equal `main` or a `_CI..E` internal symbol",
+         "note": ELIB_NOTE + "; requires hook H2 (codegen::verif::mangle_*)"},
  "C22": {"engine": "E-lib", "technique": "exhaustive enumeration + proptest + corpus mutation vs structural invariants, tokenizer.txt languages and a reference maximal-munch lexer",
          "level": "all strings of length <= 4 over a 25-symbol class alphabet and all <= 3-atom sequences over 71 atoms (exhaustive), 150k/3M random strings, corpus + 15k/200k corpus mutations; oracle: coverage/contiguity/char-boundary invariants, per-kind language membership read from tokenizer.txt, equality with an independent maximal-munch reference lexer",
          "note": ELIB_NOTE},
